@@ -25,7 +25,21 @@ func Props() []string {
 	return l
 }
 
-func Get(id string) PropFunc { return registry[id] }
+// extra holds rule groups appended to a property after its main function ran.
+var extra = map[string][]PropFunc{}
+
+func Get(id string) PropFunc {
+	f := registry[id]
+	if f == nil {
+		return nil
+	}
+	return func(c *core.Ctx, r *core.Report) {
+		f(c, r)
+		for _, e := range extra[id] {
+			e(c, r)
+		}
+	}
+}
 
 // rule runs one rule body; a missing anchor or an analysis panic makes the rule UNDECIDED, never a pass.
 func rule(r *core.Report, id, text string, body func()) {
